@@ -34,7 +34,7 @@ func (c02) Plan(tier string) fw.Plan {
 		MinEvents:   []string{"encodes", "decodes", "encoded_length_calls", "permutation_cases", "boundary_cases"},
 	}
 	if tier == "thorough" {
-		p.Batches, p.Cases, p.TimeoutSec = 64, 8000, 3000
+		p.Batches, p.Cases, p.TimeoutSec = 64, 4000, 3000
 	}
 	return p
 }
